@@ -161,6 +161,41 @@ def close(a: float, b: float, rel=1e-9, abs_=1e-9) -> bool:
     return abs(a - b) <= abs_ + rel * max(abs(a), abs(b))
 
 
+class CodeUnderTestError(Exception):
+    """The tree under test raised on an in-domain input fed by a driver (drivers catch the exceptions the code is
+    expected to raise themselves).  Reported as a violation of the property being checked, not as a machinery failure."""
+
+    def __init__(self, where, exc_type, message, tb_text, item_repr):
+        super().__init__(where, exc_type, message, tb_text, item_repr)
+        self.where, self.exc_type, self.message, self.tb_text, self.item_repr = where, exc_type, message, tb_text, item_repr
+
+
+def guard(fn, x):
+    """Call fn(x); an exception whose traceback passes through the tree under test becomes CodeUnderTestError."""
+    import traceback
+    try:
+        return fn(x)
+    except CodeUnderTestError:
+        raise
+    except Exception as exc:
+        tb = traceback.extract_tb(exc.__traceback__)
+        src = os.path.realpath(SRC) + os.sep
+        inside = [f for f in tb if os.path.realpath(f.filename).startswith(src)]
+        if inside:
+            last = inside[-1]
+            raise CodeUnderTestError(f"{os.path.basename(last.filename)}:{last.name}", type(exc).__name__, str(exc)[:300],
+                                     "".join(traceback.format_exception(type(exc), exc, exc.__traceback__))[-3000:], repr(x)[:2000]) from None
+        raise
+
+
+class _Guarded:
+    def __init__(self, fn):
+        self.fn = fn
+
+    def __call__(self, x):
+        return guard(self.fn, x)
+
+
 def _worker_init(threads):
     os.environ["NUMBA_NUM_THREADS"] = str(max(1, threads))
     use_repo()
@@ -178,8 +213,8 @@ def pmap(fn, items, procs: int | None = None, chunksize: int = 64, threads: int 
         return []
     procs = procs or min(os.cpu_count() or 4, 16)
     if procs <= 1:
-        return [fn(x) for x in items]
+        return [guard(fn, x) for x in items]
     procs = min(procs, len(items))          # always a fresh pool: workers must see the environment set by the caller
     ctx = mp.get_context("spawn")
     with ctx.Pool(procs, initializer=_worker_init, initargs=(threads,)) as pool:
-        return pool.map(fn, items, chunksize=chunksize)
+        return pool.map(_Guarded(fn), items, chunksize=chunksize)
